@@ -76,57 +76,58 @@ func c06a(c *Ctx) {
 	}
 	cmdT := c.term(fn, cmds[0])
 	n := 0
+	// record sites: every append of an impText / impMovement value (written as a composite
+	// literal or made by a constructor helper)
 	instrs(fn, func(in ssa.Instruction) {
-		a, ok := in.(*ssa.Alloc)
-		if !ok || a.Comment != "complit" {
+		ap, ok := in.(*ssa.Call)
+		if !ok || calleeName(ap) != "builtin:append" {
 			return
 		}
-		isText, isMove := typeIs(a.Type(), "parser", "impText"), typeIs(a.Type(), "parser", "impMovement")
+		sl, ok := ap.Type().Underlying().(*types.Slice)
+		if !ok {
+			return
+		}
+		isText, isMove := typeIs(sl.Elem(), "parser", "impText"), typeIs(sl.Elem(), "parser", "impMovement")
 		if !isText && !isMove {
 			return
 		}
-		n++
-		// arm name from the guard
-		arm := "?"
-		for _, l := range c.mustLits(fn, a.Block()) {
-			for _, k := range []string{"FORMAT", "STRING", "STRINGTYPE", "MOVES"} {
-				if strings.HasPrefix(l, "+(") && strings.HasSuffix(l, `.Type == "`+k+`")`) && strings.Contains(l, "$0.curToken") {
-					arm = k
-				}
-			}
-		}
-		key := "inline-arm[" + arm + "]"
-		pos := c.W.Pos(a.Pos())
-		// whole value when appended
-		var whole string
-		for _, ref := range *a.Referrers() {
-			if u, ok := ref.(*ssa.UnOp); ok && u.X == ssa.Value(a) {
-				whole = c.term(fn, u)
-			}
-		}
-		_, f := c.withFields(fn, whole)
-		if f == nil {
-			c.Unk(key, pos, "cannot read the fields of the record "+whole)
-			return
-		}
-		c.Check(f["command"] == cmdT, key+"/command", pos, "record points at the command being built", "record's command is "+f["command"]+", expected the command being built")
-		c.Check(strings.HasPrefix(f["argPos"], "builtin:len(") && strings.Contains(f["argPos"], cmdT+".Args"), key+"/argPos", pos, "argument index = number of arguments closed so far", "record's argPos is "+pretty(f["argPos"])+", expected len(command.Args) at this point")
-		c.Check(f["scriptName"] == "$1", key+"/scriptName", pos, "record carries the owning script name", "record's scriptName is "+f["scriptName"])
-		// placeholder appended to argParts in the same block, exactly one
-		ph := 0
-		for _, x := range a.Block().Instrs {
-			if call, ok := x.(*ssa.Call); ok && calleeName(call) == "builtin:append" {
-				es := varargElems(call.Call.Args[1])
-				if len(es) == 1 {
-					if s, isC := strConst(es[0]); isC && s == "" {
-						ph++
+		for _, ev := range appendElems(ap) {
+			n++
+			// arm name from the guard
+			arm := "?"
+			for _, l := range c.mustLits(fn, ap.Block()) {
+				for _, k := range []string{"FORMAT", "STRING", "STRINGTYPE", "MOVES"} {
+					if strings.HasPrefix(l, "+(") && strings.HasSuffix(l, `.Type == "`+k+`")`) && strings.Contains(l, "$0.curToken") {
+						arm = k
 					}
 				}
 			}
-		}
-		c.Check(ph == 1, key+"/placeholder", pos, "one empty placeholder keeps the argument slot", fmt.Sprintf("%d placeholders appended to the argument parts in this arm, expected 1", ph))
-		if isMove {
-			c.Check(strings.HasPrefix(f["movements"], "(*parser.Parser).parseMovesOperator@") && strings.HasSuffix(f["movements"], "#0"), key+"/content", pos, "record holds the parsed movement steps", "record's movements are "+f["movements"])
+			key := "inline-arm[" + arm + "]"
+			pos := c.W.Pos(ap.Pos())
+			f := c.valueFields(fn, ev, ap)
+			if f == nil {
+				c.Unk(key, pos, "cannot read the fields of the record "+pretty(c.term(fn, ev)))
+				continue
+			}
+			c.Check(f["command"] == cmdT, key+"/command", pos, "record points at the command being built", "record's command is "+f["command"]+", expected the command being built")
+			c.Check(strings.HasPrefix(f["argPos"], "builtin:len(") && strings.Contains(f["argPos"], cmdT+".Args"), key+"/argPos", pos, "argument index = number of arguments closed so far", "record's argPos is "+pretty(f["argPos"])+", expected len(command.Args) at this point")
+			c.Check(f["scriptName"] == "$1", key+"/scriptName", pos, "record carries the owning script name", "record's scriptName is "+f["scriptName"])
+			// placeholder appended to argParts in the same block, exactly one
+			ph := 0
+			for _, x := range ap.Block().Instrs {
+				if call, ok := x.(*ssa.Call); ok && calleeName(call) == "builtin:append" {
+					es := varargElems(call.Call.Args[1])
+					if len(es) == 1 {
+						if s, isC := strConst(es[0]); isC && s == "" {
+							ph++
+						}
+					}
+				}
+			}
+			c.Check(ph == 1, key+"/placeholder", pos, "one empty placeholder keeps the argument slot", fmt.Sprintf("%d placeholders appended to the argument parts in this arm, expected 1", ph))
+			if isMove {
+				c.Check(strings.HasPrefix(f["movements"], "(*parser.Parser).parseMovesOperator@") && strings.HasSuffix(f["movements"], "#0"), key+"/content", pos, "record holds the parsed movement steps", "record's movements are "+f["movements"])
+			}
 		}
 	})
 	c.Check(n >= 3, "inline-arms", c.W.FuncPos(fn), "inline arms (format, string, typed string, moves)", fmt.Sprintf("found %d inline records, expected at least 3", n))
